@@ -1,837 +1,2 @@
-(* C18 proofs. *)
-From Slsk Require Import Base.Tac.
-From SlskGen Require Import TicketGen.
-From Slsk Require Import C18.Model.
-Open Scope Z_scope.
-
-(* ---------------------------------------------------------------- generator *)
-Lemma ticket_step_spec : forall x, ticket_step TICKET_INITIAL x = if Z.ltb MAXT (x + 1) then 1 else x + 1.
-Proof. intros. unfold ticket_step, ticket_step_pair, TICKET_INITIAL, MAXT. cbn. destruct (Z.ltb_spec 4294967295 (x+1)); reflexivity. Qed.
-
-Definition nth_ticket (n : nat) : Z := Nat.iter n (ticket_step TICKET_INITIAL) TICKET_INITIAL.
-
-Lemma ticket_closed_form : forall n, nth_ticket n = Z.of_nat n mod MAXT + 1.
-Proof.
-  induction n.
-  - reflexivity.
-  - unfold nth_ticket in *. change (Nat.iter (S n) (ticket_step TICKET_INITIAL) TICKET_INITIAL) with (ticket_step TICKET_INITIAL (Nat.iter n (ticket_step TICKET_INITIAL) TICKET_INITIAL)). rewrite IHn, ticket_step_spec. unfold MAXT.
-    rewrite Nat2Z.inj_succ. destruct (Z.ltb_spec 4294967295 (Z.of_nat n mod 4294967295 + 1 + 1)); lia.
-Qed.
-
-Lemma tickets_distinct : forall i j : nat, (i < j)%nat -> Z.of_nat j - Z.of_nat i < MAXT -> nth_ticket i <> nth_ticket j.
-Proof. intros i j H1 H2. rewrite !ticket_closed_form. unfold MAXT in *. lia. Qed.
-
-Lemma tickets_range : forall n, 1 <= nth_ticket n <= MAXT.
-Proof. intros. rewrite ticket_closed_form. unfold MAXT. lia. Qed.
-
-(* ---------------------------------------------------------------- small facts *)
-Lemma memz_In : forall x l, memz x l = true <-> In x l.
-Proof. intros. unfold memz. rewrite existsb_exists. split.
-  - intros (y & Hy & E). apply Z.eqb_eq in E. subst. assumption.
-  - intros. exists x. split; [assumption|apply Z.eqb_refl]. Qed.
-
-Lemma memz_delz_same : forall x l, memz x (delz x l) = false.
-Proof. intros. destruct (memz x (delz x l)) eqn:E; [|reflexivity]. apply memz_In in E. unfold delz in E.
-  apply filter_In in E. destruct E as (_ & E). rewrite Z.eqb_refl in E. discriminate. Qed.
-
-Lemma memz_delz_other : forall x y l, x <> y -> memz x (delz y l) = memz x l.
-Proof. intros. destruct (memz x l) eqn:E.
-  - apply memz_In. apply memz_In in E. unfold delz. apply filter_In. split; [assumption|].
-    destruct (Z.eqb_spec y x); [congruence|reflexivity].
-  - destruct (memz x (delz y l)) eqn:E2; [|reflexivity]. apply memz_In in E2. unfold delz in E2. apply filter_In in E2.
-    destruct E2 as (E2 & _). apply memz_In in E2. congruence. Qed.
-
-Lemma In_delz : forall x y l, In x (delz y l) -> In x l.
-Proof. intros. unfold delz in H. apply filter_In in H. tauto. Qed.
-
-Lemma run_app : forall a b s, run s (a ++ b) = run (run s a) b.
-Proof. intros. unfold run. apply fold_left_app. Qed.
-
-Lemma issues_app : forall a b, issues (a ++ b) = issues a + issues b.
-Proof. intros. unfold issues. rewrite filter_app, app_length. lia. Qed.
-Lemma issues_cons : forall e r, issues (e :: r) = (if is_issue e then 1 else 0) + issues r.
-Proof. intros. unfold issues. cbn [filter]. destruct (is_issue e); cbn [length]; lia. Qed.
-Lemma issues_nonneg : forall l, 0 <= issues l. Proof. intros. unfold issues. lia. Qed.
-
-Ltac unf := unfold step, register, cancel_timer, cancel_task, start_timer, finish_task, emit, set_requests, set_gen,
-  set_handle, set_tasks, set_now, set_interval, upd, updn in *.
-Ltac proj := cbn [now gen interval requests has_timer tmo handle ntasks tasks log owner deadline status] in *.
-Ltac projg := cbn [now gen interval requests has_timer tmo handle ntasks tasks log owner deadline status].
-Ltac brk :=
-  repeat match goal with
-  | |- context [match ?x with _ => _ end] =>
-      lazymatch x with
-      | Z.eqb ?a ?b => destruct (Z.eqb_spec a b)
-      | Nat.eqb ?a ?b => destruct (Nat.eqb_spec a b)
-      | Nat.ltb ?a ?b => destruct (Nat.ltb_spec a b)
-      | Z.ltb ?a ?b => destruct (Z.ltb_spec a b)
-      | Z.leb ?a ?b => destruct (Z.leb_spec a b)
-      | _ => let E := fresh "E" in destruct x eqn:E
-      end; projg
-  end.
-
-(* the log only grows, at the head *)
-Lemma step_log : forall s e, log (step s e) = new_obs s e ++ log s.
-Proof.
-  intros. unfold new_obs.
-  assert (exists l, log (step s e) = l ++ log s) as (l & H).
-  { destruct e; unf; proj; brk; proj;
-      first [ now (exists []) | now (eexists [_]) ]. }
-  rewrite H. rewrite app_length. replace (length l + length (log s) - length (log s))%nat with (length l) by lia.
-  rewrite firstn_app. rewrite Nat.sub_diag. cbn [firstn]. rewrite firstn_all. rewrite app_nil_r. reflexivity.
-Qed.
-
-Definition delta (s : state) (e : event) : list obs :=
-  match e with
-  | Search tau => [OSent (ticket_step TICKET_INITIAL (gen s)) (now s) (if Z.ltb 0 tau then tau else 0)]
-  | Wish setting => let tau := wishlist_timeout setting (interval s) in
-                    [OSent (ticket_step TICKET_INITIAL (gen s)) (now s) (if negb (Z.eqb tau 0) then tau else 0)]
-  | Reply tk id => if memz tk (requests s) then [OResult tk id] else []
-  | Remove tk => if memz tk (requests s) then [ORemoveOk tk] else [ORemoveKeyErr tk]
-  | Step i =>
-      if Nat.ltb i (ntasks s) then
-        match status (tasks s i) with
-        | Pend false =>
-            if Z.leb (deadline (tasks s i)) (now s) then
-              if memz (owner (tasks s i)) (requests s) then [ORemoved (owner (tasks s i)) (now s)]
-              else []
-            else []
-        | _ => []
-        end
-      else []
-  | _ => []
-  end.
-
-Lemma new_obs_delta : forall s e, new_obs s e = delta s e.
-Proof.
-  intros. apply (app_inv_tail (log s)). rewrite <- step_log.
-  destruct e; unfold delta; unf; proj; brk; proj; try reflexivity; try lia.
-Qed.
-
-(* ---------------------------------------------------------------- A: results *)
-Lemma result_only_if_live : forall s e tk id,
-  In (OResult tk id) (new_obs s e) <-> (e = Reply tk id /\ memz tk (requests s) = true).
-Proof.
-  intros. rewrite new_obs_delta. split.
-  - destruct e; unfold delta; brk; cbn [In]; intros Hi; try tauto; try (destruct Hi as [Hi|[]]; try discriminate).
-    inv Hi. split; [reflexivity|assumption].
-  - intros (-> & Hm). cbn [delta]. rewrite Hm. left. reflexivity.
-Qed.
-
-Lemma requests_live_step : forall s e,
-  (forall tk, memz tk (requests s) = live_in_log tk (log s)) ->
-  (forall tk, memz tk (requests (step s e)) = live_in_log tk (log (step s e))).
-Proof.
-  intros s e H tk.
-  destruct e; unf; proj; brk; proj; cbn [live_in_log memz existsb]; fold (memz tk (requests s));
-    rewrite <- ?H; brk; subst;
-    try reflexivity; try lia;
-    rewrite ?memz_delz_same, ?orb_false_l; try reflexivity;
-    try (rewrite memz_delz_other by congruence; reflexivity);
-    try (rewrite Z.eqb_sym; destruct (Z.eqb_spec tk (ticket_step TICKET_INITIAL (gen s))); subst; cbn; congruence).
-  all: try assumption.
-  all: match goal with n : ?a <> ?b |- _ => destruct (Z.eqb_spec b a); [congruence|reflexivity] end.
-Qed.
-
-Lemma requests_live_gen : forall evs s, (forall tk, memz tk (requests s) = live_in_log tk (log s)) ->
-  forall tk, memz tk (requests (run s evs)) = live_in_log tk (log (run s evs)).
-Proof.
-  induction evs; intros s H; [exact H|]. cbn [run fold_left]. apply IHevs. apply requests_live_step. exact H.
-Qed.
-Lemma requests_live : forall evs tk, memz tk (requests (run init evs)) = live_in_log tk (log (run init evs)).
-Proof. intros evs. apply requests_live_gen. reflexivity. Qed.
-
-Lemma result_iff_live_ticket : forall evs e tk id,
-  In (OResult tk id) (new_obs (run init evs) e) <->
-  (e = Reply tk id /\ live_in_log tk (log (run init evs)) = true).
-Proof. intros. rewrite result_only_if_live, requests_live. reflexivity. Qed.
-
-(* ---------------------------------------------------------------- the basic invariant *)
-Definition obs_bounded (g : Z) (o : obs) : Prop :=
-  match o with
-  | ORemoveKeyErr _ => True
-  | OSent k _ _ | OResult k _ | ORemoved k _ | OErrKey k _ | ORemoveOk k => k <= g
-  end.
-
-Record Inv (s : state) : Prop := mkInv {
-  i_req : forall tk, In tk (requests s) -> tk <= gen s;
-  i_task : forall i, (i < ntasks s)%nat -> owner (tasks s i) <= gen s /\ has_timer s (owner (tasks s i)) = true;
-  i_timer : forall tk, has_timer s tk = true -> tk <= gen s;
-  i_log : forall o, In o (log s) -> obs_bounded (gen s) o;
-  i_handle : forall tk i, handle s tk = Some i -> (i < ntasks s)%nat /\ owner (tasks s i) = tk
-}.
-
-Definition okstep (s : state) (e : event) : Prop := is_issue e = true -> gen s < MAXT.
-
-Lemma gen_step : forall s e, okstep s e -> gen (step s e) = gen s + (if is_issue e then 1 else 0).
-Proof.
-  intros s e H. unfold okstep in H.
-  destruct e; cbn [is_issue] in *; try specialize (H eq_refl); unf; proj; brk; proj; try lia;
-  rewrite ticket_step_spec; destruct (Z.ltb_spec MAXT (gen s + 1)); lia.
-Qed.
-
-Lemma obs_bounded_mono : forall g g' o, g <= g' -> obs_bounded g o -> obs_bounded g' o.
-Proof. intros. destruct o; cbn in *; lia. Qed.
-
-Lemma Inv_init : Inv init.
-Proof. constructor; cbn; intros; try tauto; try discriminate; try lia. Qed.
-
-Lemma Inv_step : forall s e, Inv s -> okstep s e -> Inv (step s e).
-Proof.
-  intros s e [I1 I2 I3 I4 I5] Hok.
-  pose proof (gen_step s e Hok) as Hg.
-  assert (Hnew : is_issue e = true -> ticket_step TICKET_INITIAL (gen s) = gen s + 1).
-  { intros Hi. specialize (Hok Hi). rewrite ticket_step_spec. destruct (Z.ltb_spec MAXT (gen s + 1)); lia. }
-  constructor.
-  - (* requests *)
-    intros tk. destruct e; cbn [is_issue] in *; try specialize (Hnew eq_refl); unf; proj; brk; proj; cbn [In];
-      intros Hin; try (apply In_delz in Hin); try (destruct Hin as [<-|Hin]); try (apply I1 in Hin); try lia.
-  - (* tasks *)
-    intros i. destruct e; cbn [is_issue] in *; try specialize (Hnew eq_refl); unf; proj; brk; proj; intros Hi; subst;
-      try match goal with |- context [tasks s ?k] => assert (Hk : (k < ntasks s)%nat) by lia; destruct (I2 k Hk) end;
-      try (split; [lia| first [assumption | reflexivity]]); try lia.
-    all: try (split; [apply I3; assumption | assumption]).
-  - (* has_timer *)
-    intros tk. destruct e; cbn [is_issue] in *; try specialize (Hnew eq_refl); unf; proj; brk; proj; intros Hi; subst;
-      try discriminate; try (apply I3 in Hi); try lia.
-  - (* log *)
-    intros o. rewrite step_log, new_obs_delta. intros Hin. apply in_app_or in Hin. destruct Hin as [Hin|Hin].
-    2:{ apply I4 in Hin. eapply obs_bounded_mono; [|exact Hin]. destruct (is_issue e); lia. }
-    destruct e; cbn [is_issue] in *; try specialize (Hnew eq_refl); unfold delta in Hin; cbn zeta in Hin;
-      repeat match type of Hin with context [if ?c then _ else _] => let E := fresh "E" in destruct c eqn:E
-                                | context [match ?c with _ => _ end] => let E := fresh "E" in destruct c eqn:E end;
-      cbn [In] in Hin; try tauto; destruct Hin as [<-|[]]; cbn [obs_bounded]; try lia.
-    all: rewrite Hg; try (apply memz_In in E; apply I1 in E; lia).
-    all: match goal with E : (?i <? ntasks ?s)%nat = true |- _ => apply Nat.ltb_lt in E; destruct (I2 i E); lia end.
-  - (* handles *)
-    intros tk i. destruct e; cbn [is_issue] in *; try specialize (Hnew eq_refl); unf; proj; brk; proj; intros Hi; subst;
-      try discriminate; try (inv Hi); try (split; [lia|reflexivity]);
-      try match goal with H : handle s ?k = Some ?j |- _ => destruct (I5 k j H) end; try (split; [lia|congruence]).
-    all: try (exfalso; lia).
-Qed.
-
-(* invariants along histories that do not wrap the generator *)
-Lemma run_inv : forall (P : state -> Prop) (allowed : event -> bool),
-  (forall s e, Inv s -> P s -> okstep s e -> allowed e = true -> P (step s e)) ->
-  forall evs s, Inv s -> P s -> gen s + issues evs <= MAXT -> forallb allowed evs = true ->
-  P (run s evs) /\ Inv (run s evs) /\ gen (run s evs) = gen s + issues evs.
-Proof.
-  intros P allowed Hstep. induction evs; intros s HI HP Hg Ha.
-  - unfold run, issues. cbn [fold_left filter length]. split; [assumption|split; [assumption|]]. change (Z.of_nat 0) with 0. lia.
-  - cbn [run fold_left]. rewrite issues_cons in *. cbn [forallb] in Ha. apply andb_prop in Ha. destruct Ha as (Ha1 & Ha2).
-    pose proof (issues_nonneg evs).
-    assert (Hok : okstep s a). { unfold okstep. intros Hi. rewrite Hi in Hg. lia. }
-    pose proof (gen_step s a Hok) as Hgs.
-    destruct (IHevs (step s a)) as (H1 & H2 & H3); try assumption.
-    + apply Inv_step; assumption.
-    + apply Hstep; assumption.
-    + rewrite Hgs. lia.
-    + split; [assumption|split; [assumption|]]. fold (run (step s a) evs). rewrite H3, Hgs. lia.
-Qed.
-
-Definition anyev (e : event) := true.
-Lemma forallb_any : forall evs, forallb anyev evs = true. Proof. induction evs; cbn; auto. Qed.
-
-Lemma reach_inv : forall evs, nowrap evs -> Inv (run init evs) /\ gen (run init evs) = TICKET_INITIAL + issues evs.
-Proof.
-  intros evs H. destruct (run_inv (fun _ => True) anyev (fun _ _ _ _ _ _ => I) evs init Inv_init I H (forallb_any evs)) as (_ & H1 & H2).
-  split; assumption.
-Qed.
-
-Lemma nowrap_app_l : forall a b, nowrap (a ++ b) -> nowrap a.
-Proof. unfold nowrap. intros. rewrite issues_app in H. pose proof (issues_nonneg b). lia. Qed.
-
-Lemma nowrap_okstep : forall evs e, nowrap (evs ++ [e]) -> okstep (run init evs) e.
-Proof.
-  intros evs e H. pose proof (nowrap_app_l _ _ H) as H1. destruct (reach_inv evs H1) as (_ & Hg).
-  unfold okstep. intros Hi. unfold nowrap in H. rewrite issues_app, issues_cons, Hi in H. change (issues []) with 0 in H. lia.
-Qed.
-
-(* ---------------------------------------------------------------- B: tickets of live requests *)
-Definition sent_tickets (l : list obs) : list Z :=
-  flat_map (fun o => match o with OSent k _ _ => [k] | _ => [] end) l.
-
-Lemma sent_tickets_bounded : forall l g k, (forall o, In o l -> obs_bounded g o) -> In k (sent_tickets l) -> k <= g.
-Proof.
-  intros l g k H Hin. unfold sent_tickets in Hin. apply in_flat_map in Hin. destruct Hin as (o & Ho & Hk).
-  destruct o; cbn in Hk; try tauto. destruct Hk as [<-|[]]. apply (H _ Ho).
-Qed.
-
-Lemma sent_nodup_step : forall s e, Inv s -> NoDup (sent_tickets (log s)) -> okstep s e -> anyev e = true ->
-  NoDup (sent_tickets (log (step s e))).
-Proof.
-  intros s e HI HN Hok _. rewrite step_log, new_obs_delta.
-  assert (Hnew : is_issue e = true -> ticket_step TICKET_INITIAL (gen s) = gen s + 1).
-  { intros Hi. specialize (Hok Hi). rewrite ticket_step_spec. destruct (Z.ltb_spec MAXT (gen s + 1)); lia. }
-  assert (Hfresh : ~ In (gen s + 1) (sent_tickets (log s))).
-  { intros Hin. apply (sent_tickets_bounded _ (gen s)) in Hin; [lia|]. apply (i_log s HI). }
-  destruct e; cbn [is_issue] in *; try specialize (Hnew eq_refl); unfold delta; cbn zeta; brk; cbn [app sent_tickets flat_map];
-    try assumption; fold (sent_tickets (log s)); rewrite Hnew; constructor; assumption.
-Qed.
-
-Lemma sent_tickets_distinct : forall evs, nowrap evs -> NoDup (sent_tickets (log (run init evs))).
-Proof.
-  intros evs H. apply (run_inv (fun s => NoDup (sent_tickets (log s))) anyev sent_nodup_step evs init Inv_init); try assumption.
-  - constructor.
-  - apply forallb_any.
-Qed.
-
-(* a Sent observation always registers: the request is live right after it *)
-
-(* ---------------------------------------------------------------- D: manual removal *)
-Definition removed_dead (tk : Z) (s : state) : Prop := In (ORemoveOk tk) (log s) -> memz tk (requests s) = false.
-
-Lemma removed_dead_step : forall tk s e, Inv s -> removed_dead tk s -> okstep s e -> anyev e = true -> removed_dead tk (step s e).
-Proof.
-  intros tk s e HI HP Hok _. unfold removed_dead in *. rewrite step_log, new_obs_delta. intros Hin.
-  assert (Hnew : is_issue e = true -> ticket_step TICKET_INITIAL (gen s) = gen s + 1).
-  { intros Hi. specialize (Hok Hi). rewrite ticket_step_spec. destruct (Z.ltb_spec MAXT (gen s + 1)); lia. }
-  assert (Hb : In (ORemoveOk tk) (log s) -> tk <= gen s). { intros Hl. apply (i_log s HI) in Hl. exact Hl. }
-  apply in_app_or in Hin.
-  destruct e; cbn [is_issue] in *; try specialize (Hnew eq_refl); unfold delta in Hin; cbn zeta in Hin; unf; proj; brk; proj;
-    cbn [In] in Hin;
-    repeat match goal with H : _ \/ _ |- _ => destruct H | H : False |- _ => destruct H end; try discriminate;
-    try (apply HP; assumption);
-    try match goal with H : ORemoveOk _ = ORemoveOk _ |- _ => inv H end;
-    try apply memz_delz_same.
-  all: try (cbn [memz existsb];
-         match goal with H : In (ORemoveOk ?k) (log ?s0) |- _ => fold (memz k (requests s0)); rewrite (HP H); apply Hb in H;
-         destruct (Z.eqb_spec k (ticket_step TICKET_INITIAL (gen s0))); [lia|reflexivity] end).
-  all: try (match goal with |- memz ?k (delz ?o _) = false => destruct (Z.eq_dec k o); [subst; apply memz_delz_same| rewrite memz_delz_other by assumption; apply HP; assumption] end).
-Qed.
-
-Lemma removed_silent_full : forall evs e tk, nowrap (evs ++ [e]) -> In (ORemoveOk tk) (log (run init evs)) ->
-  forall o, In o (new_obs (run init evs) e) -> result_for tk o = false /\ fires_for tk o = false.
-Proof.
-  intros evs e tk Hnw Hin o Ho. pose proof (nowrap_app_l _ _ Hnw) as Hnw1.
-  destruct (run_inv (removed_dead tk) anyev (removed_dead_step tk) evs init Inv_init) as (HP & HI & _);
-    [intros H; destruct H | exact Hnw1 | apply forallb_any |].
-  specialize (HP Hin). rewrite new_obs_delta in Ho. set (s := run init evs) in *.
-  destruct e; unfold delta in Ho; cbn zeta in Ho;
-    repeat match type of Ho with context [if ?c then _ else _] => let E := fresh "E" in destruct c eqn:E
-                              | context [match ?c with _ => _ end] => let E := fresh "E" in destruct c eqn:E end;
-    cbn [In] in Ho; try tauto; destruct Ho as [<-|[]]; cbn [result_for fires_for]; split; try reflexivity;
-    match goal with |- (?a =? ?b) = false => destruct (Z.eqb_spec a b); [subst; congruence|reflexivity] end.
-Qed.
-
-(* no exception ever escapes a timer task *)
-Lemma no_task_errors : forall s e o tk t, In o (new_obs s e) -> o <> OErrKey tk t.
-Proof.
-  intros s e o tk t Ho. rewrite new_obs_delta in Ho.
-  destruct e; unfold delta in Ho; cbn zeta in Ho;
-    repeat match type of Ho with context [if ?c then _ else _] => let E := fresh "E" in destruct c eqn:E
-                              | context [match ?c with _ => _ end] => let E := fresh "E" in destruct c eqn:E end;
-    cbn [In] in Ho; try tauto; destruct Ho as [<-|[]]; discriminate.
-Qed.
-
-Definition no_timer_inv (tk : Z) (s : state) : Prop := (exists t0, In (OSent tk t0 0) (log s)) -> has_timer s tk = false.
-
-Lemma no_timer_step : forall tk s e, Inv s -> no_timer_inv tk s -> okstep s e -> anyev e = true -> no_timer_inv tk (step s e).
-Proof.
-  intros tk s e HI HP Hok _. unfold no_timer_inv in *. rewrite step_log, new_obs_delta. intros (t0 & Hin).
-  assert (Hnew : is_issue e = true -> ticket_step TICKET_INITIAL (gen s) = gen s + 1).
-  { intros Hi. specialize (Hok Hi). rewrite ticket_step_spec. destruct (Z.ltb_spec MAXT (gen s + 1)); lia. }
-  assert (Hb : forall t0, In (OSent tk t0 0) (log s) -> tk <= gen s). { intros t1 Hl. apply (i_log s HI) in Hl. exact Hl. }
-  apply in_app_or in Hin.
-  destruct e; cbn [is_issue] in *; try specialize (Hnew eq_refl); unfold delta in Hin; cbn zeta in Hin; unf; proj; brk; proj;
-    cbn [In] in Hin;
-    repeat match goal with H : _ \/ _ |- _ => destruct H | H : False |- _ => destruct H end; try discriminate;
-    try (apply HP; eexists; eassumption);
-    try match goal with H : OSent _ _ _ = OSent _ _ _ |- _ => inv H end; try lia; try congruence.
-  all: try match goal with H : In (OSent _ _ 0) _ |- _ => apply Hb in H; lia end.
-Qed.
-
-Lemma removed_silent_no_timer : forall evs e tk t0, nowrap (evs ++ [e]) -> In (OSent tk t0 0) (log (run init evs)) ->
-  forall o, In o (new_obs (run init evs) e) -> fires_for tk o = false.
-Proof.
-  intros evs e tk t0 Hnw Hin o Ho. pose proof (nowrap_app_l _ _ Hnw) as Hnw1.
-  destruct (run_inv (no_timer_inv tk) anyev (no_timer_step tk) evs init Inv_init) as (HP & HI & _);
-    [intros (t & H); destruct H | exact Hnw1 | apply forallb_any |].
-  assert (Hf : has_timer (run init evs) tk = false) by (apply HP; eexists; eassumption).
-  rewrite new_obs_delta in Ho. set (s := run init evs) in *.
-  destruct e; unfold delta in Ho; cbn zeta in Ho;
-    repeat match type of Ho with context [if ?c then _ else _] => let E := fresh "E" in destruct c eqn:E
-                              | context [match ?c with _ => _ end] => let E := fresh "E" in destruct c eqn:E end;
-    cbn [In] in Ho; try tauto; destruct Ho as [<-|[]]; cbn [fires_for]; try reflexivity;
-    match goal with |- (?a =? ?b) = false => destruct (Z.eqb_spec a b); [|reflexivity] end;
-    apply Nat.ltb_lt in E; destruct (i_task s HI i E); congruence.
-Qed.
-
-
-(* ---------------------------------------------------------------- the handle points to the armed task *)
-(* (repaired Timer._unset_task) a task that can still fire is the one its Timer's handle refers to *)
-Definition HP (s : state) : Prop :=
-  forall i, (i < ntasks s)%nat -> status (tasks s i) = Pend false -> handle s (owner (tasks s i)) = Some i.
-
-Lemma HP_step : forall s e, Inv s -> HP s -> okstep s e -> anyev e = true -> HP (step s e).
-Proof.
-  intros s e HI H Hok _.
-  assert (Hnew : is_issue e = true -> ticket_step TICKET_INITIAL (gen s) = gen s + 1).
-  { intros Hi. specialize (Hok Hi). rewrite ticket_step_spec. destruct (Z.ltb_spec MAXT (gen s + 1)); lia. }
-  pose proof (i_task s HI) as IT. pose proof (i_handle s HI) as IH.
-  intros i. destruct e; cbn [is_issue] in *; try specialize (Hnew eq_refl); unf; proj; brk; proj;
-    intros Hi Si; try (apply H; assumption || lia); try lia; try discriminate; try reflexivity; try congruence.
-  all: try (exfalso; match goal with H : context [owner (tasks ?s0 ?k)] |- _ => destruct (IT k ltac:(lia)); lia end).
-  all: try (exfalso; pose proof (H i ltac:(lia) Si) as HH; subst; congruence).
-  all: try (subst; reflexivity).
-  all: try (exfalso; pose proof (H i ltac:(lia) Si) as HH; rewrite e in HH; congruence).
-Qed.
-
-Lemma reach_HP : forall evs, nowrap evs -> HP (run init evs) /\ Inv (run init evs) /\ gen (run init evs) = TICKET_INITIAL + issues evs.
-Proof.
-  intros evs H. apply (run_inv HP anyev HP_step evs init Inv_init); [intros i Hi; cbn in Hi; lia|exact H|apply forallb_any].
-Qed.
-
-
-(* ---------------------------------------------------------------- C/E: timers that were never re-armed *)
-Record NR (tk : Z) (s : state) : Prop := mkNR {
-  nr_uniq : forall i j, (i < ntasks s)%nat -> (j < ntasks s)%nat -> owner (tasks s i) = tk -> owner (tasks s j) = tk -> i = j;
-  nr_handle : forall i, (i < ntasks s)%nat -> owner (tasks s i) = tk -> status (tasks s i) = Pend false -> handle s tk = Some i;
-  nr_nofire : forall i, (i < ntasks s)%nat -> owner (tasks s i) = tk -> (exists c, status (tasks s i) = Pend c) ->
-              forall o, In o (log s) -> fires_for tk o = false;
-  nr_deadline : forall i, (i < ntasks s)%nat -> owner (tasks s i) = tk ->
-              exists t0 tau, In (OSent tk t0 tau) (log s) /\ tau <> 0 /\ deadline (tasks s i) = t0 + Z.max tau 0
-}.
-
-Definition noresched (tk : Z) (e : event) : bool := negb (resched_on tk e).
-
-Lemma NR_init : forall tk, NR tk init.
-Proof. intros. constructor; cbn; intros; lia. Qed.
-
-Lemma fires_bounded : forall s tk o, Inv s -> In o (log s) -> fires_for tk o = true -> tk <= gen s.
-Proof. intros s tk o HI Hin Hf. apply (i_log s HI) in Hin. destruct o; cbn in *; try discriminate; apply Z.eqb_eq in Hf; subst; assumption. Qed.
-
-Lemma NR_step : forall tk s e, Inv s -> NR tk s -> okstep s e -> noresched tk e = true -> NR tk (step s e).
-Proof.
-  intros tk s e HI [U H Q D] Hok Ha.
-  assert (Hnew : is_issue e = true -> ticket_step TICKET_INITIAL (gen s) = gen s + 1).
-  { intros Hi. specialize (Hok Hi). rewrite ticket_step_spec. destruct (Z.ltb_spec MAXT (gen s + 1)); lia. }
-  pose proof (i_task s HI) as IT. pose proof (i_handle s HI) as IH.
-  constructor.
-  - (* uniqueness *)
-    intros i j. destruct e; cbn [is_issue noresched resched_on] in *; try specialize (Hnew eq_refl); unf; proj; brk; proj;
-      intros Hi Hj Oi Oj; try (apply U; assumption || lia); try lia; try discriminate.
-    all: try (exfalso; match goal with H : context [owner (tasks ?s0 ?k)] |- _ => destruct (IT k ltac:(lia)); lia end).
-    all: try (subst; apply U; solve [assumption | lia]).
-    all: try (exfalso; unfold noresched, resched_on in Ha; subst; rewrite Z.eqb_refl in Ha; discriminate).
-  - (* handle *)
-    intros i. destruct e; cbn [is_issue noresched resched_on] in *; try specialize (Hnew eq_refl); unf; proj; brk; proj;
-      intros Hi Oi Si; try (apply H; assumption || lia); try lia; try discriminate; try reflexivity.
-    all: try (exfalso; match goal with H : context [owner (tasks ?s0 ?k)] |- _ => destruct (IT k ltac:(lia)); lia end).
-    all: try (exfalso; unfold noresched, resched_on in Ha; subst; rewrite Z.eqb_refl in Ha; discriminate).
-    all: try (subst; apply H; solve [assumption | lia]).
-    all: try (subst; reflexivity).
-    all: try (exfalso; pose proof (H i Hi Oi Si) as HH; subst; congruence).
-    all: try (exfalso; apply n; apply U; solve [assumption | lia | congruence]).
-  - (* no fire while pending *)
-    intros i Hi Oi (c & Si) o. rewrite step_log, new_obs_delta. intros Hin. apply in_app_or in Hin.
-    assert (Hb : forall o, In o (log s) -> fires_for tk o = true -> tk <= gen s) by (intros; eapply fires_bounded; eassumption).
-    revert Hi Oi Si Hin.
-    destruct e; cbn [is_issue noresched resched_on] in *; try specialize (Hnew eq_refl); unfold delta; cbn zeta; unf; proj; brk; proj;
-      intros Hi Oi Si Hin; cbn [In] in Hin;
-      repeat match goal with H : _ \/ _ |- _ => destruct H | H : False |- _ => destruct H end; subst o || idtac;
-      try reflexivity; try discriminate; try lia;
-      try (eapply Q; [| | | eassumption]; [eassumption || lia| assumption | eexists; eassumption]).
-    all: try (match goal with H1 : In ?o (log ?s0) |- fires_for ?k ?o = false =>
-                 destruct (fires_for k o) eqn:F; [exfalso; pose proof (Hb o H1 F); lia | reflexivity] end).
-    all: try (eapply (Q i); [lia | eassumption | eexists; eassumption | eassumption]).
-    all: try (eapply (Q n); [lia | eassumption | eexists; eassumption | eassumption]).
-    all: try (exfalso; unfold noresched, resched_on in Ha; subst; rewrite Z.eqb_refl in Ha; discriminate).
-    all: cbn [fires_for]; match goal with |- (?a =? ?b) = false => destruct (Z.eqb_spec a b); [|reflexivity] end;
-         exfalso; apply n; apply U; solve [assumption | lia].
-  - (* deadline *)
-    intros i.
-    destruct e; cbn [is_issue noresched resched_on] in *; try specialize (Hnew eq_refl); unf; proj; brk; proj;
-      intros Hi Oi;
-      try (destruct (D i ltac:(lia) Oi) as (t0 & tau0 & D1 & D2 & D3); exists t0, tau0; split; [first [assumption | right; assumption] | split; assumption]).
-    all: try (exfalso; unfold noresched, resched_on in Ha; subst; rewrite Z.eqb_refl in Ha; discriminate).
-    all: try (eexists _, _; split; [left; subst; reflexivity | split; [| reflexivity]]; lia).
-    all: try congruence.
-    all: try (match goal with Oi : owner (tasks ?s0 ?k) = _ |- _ =>
-                destruct (D k ltac:(lia) Oi) as (t0 & tau0 & D1 & D2 & D3); exists t0, tau0;
-                split; [first [assumption | right; assumption] | split; assumption] end).
-Qed.
-
-Lemma reach_NR : forall evs tk, nowrap evs -> no_resched tk evs ->
-  NR tk (run init evs) /\ Inv (run init evs).
-Proof.
-  intros evs tk Hnw Hnr.
-  destruct (run_inv (NR tk) (noresched tk) (NR_step tk) evs init Inv_init (NR_init tk) Hnw) as (H1 & H2 & _).
-  - unfold no_resched in Hnr. exact Hnr.
-  - split; assumption.
-Qed.
-
-(* a step reports a timer expiry for tk only through a task of tk whose sleep is over *)
-(* a step reports a timer expiry for tk only through a task of tk whose sleep is over *)
-Lemma fire_inv : forall s e tk o, In o (new_obs s e) -> fires_for tk o = true ->
-  exists i, e = Step i /\ (i < ntasks s)%nat /\ owner (tasks s i) = tk /\ status (tasks s i) = Pend false /\
-            deadline (tasks s i) <= now s /\ o = ORemoved tk (now s) /\ memz tk (requests s) = true.
-Proof.
-  intros s e tk o Ho Hf. rewrite new_obs_delta in Ho.
-  destruct e; unfold delta in Ho; cbn zeta in Ho;
-    repeat match type of Ho with context [if ?c then _ else _] => let E := fresh "E" in destruct c eqn:E
-                              | context [match ?c with _ => _ end] => let E := fresh "E" in destruct c eqn:E end;
-    cbn [In] in Ho; try tauto; destruct Ho as [<-|[]]; cbn [fires_for] in Hf; try discriminate;
-    apply Z.eqb_eq in Hf; exists i;
-    repeat match goal with H : (_ <? _)%nat = true |- _ => apply Nat.ltb_lt in H | H : (_ <=? _) = true |- _ => apply Z.leb_le in H end;
-    subst; repeat split; auto.
-Qed.
-
-(* C: at most once, and not before the timeout *)
-Lemma timeout_at_most_once : forall evs e tk o, nowrap (evs ++ [e]) -> no_resched tk evs ->
-  In o (new_obs (run init evs) e) -> fires_for tk o = true ->
-  forall o', In o' (log (run init evs)) -> fires_for tk o' = false.
-Proof.
-  intros evs e tk o Hnw Hnr Ho Hf. destruct (reach_NR evs tk (nowrap_app_l _ _ Hnw) Hnr) as (HN & HI).
-  destruct (fire_inv _ _ _ _ Ho Hf) as (i & -> & Hi & Oi & Si & _).
-  eapply (nr_nofire tk _ HN i); try eassumption. eexists; eassumption.
-Qed.
-
-Lemma timeout_not_before : forall evs e tk o, nowrap (evs ++ [e]) -> no_resched tk evs ->
-  In o (new_obs (run init evs) e) -> fires_for tk o = true ->
-  exists t0 tau, In (OSent tk t0 tau) (log (run init evs)) /\ tau <> 0 /\ t0 + Z.max tau 0 <= now (run init evs) /\
-                 o = ORemoved tk (now (run init evs)).
-Proof.
-  intros evs e tk o Hnw Hnr Ho Hf. destruct (reach_NR evs tk (nowrap_app_l _ _ Hnw) Hnr) as (HN & HI).
-  destruct (fire_inv _ _ _ _ Ho Hf) as (i & -> & Hi & Oi & Si & Hd & Ho' & _).
-  destruct (nr_deadline tk _ HN i Hi Oi) as (t0 & tau & D1 & D2 & D3). exists t0, tau. repeat split; try assumption. lia.
-Qed.
-
-(* E: cancel / remove / re-arm make every task of the timer harmless *)
-Definition CN (tk : Z) (s : state) : Prop :=
-  tk <= gen s /\ forall i, (i < ntasks s)%nat -> owner (tasks s i) = tk -> status (tasks s i) <> Pend false.
-
-Lemma CN_step : forall tk s e, Inv s -> CN tk s -> okstep s e -> noresched tk e = true -> CN tk (step s e).
-Proof.
-  intros tk s e HI (Hb & HC) Hok Ha.
-  assert (Hnew : is_issue e = true -> ticket_step TICKET_INITIAL (gen s) = gen s + 1).
-  { intros Hi. specialize (Hok Hi). rewrite ticket_step_spec. destruct (Z.ltb_spec MAXT (gen s + 1)); lia. }
-  pose proof (gen_step s e Hok) as Hg.
-  split. { destruct (is_issue e); lia. }
-  intros i. destruct e; cbn [is_issue noresched resched_on] in *; try specialize (Hnew eq_refl); unf; proj; brk; proj;
-    intros Hi Oi; try (apply HC; assumption || lia); try discriminate; try lia.
-  all: try (exfalso; unfold noresched, resched_on in Ha; subst; rewrite Z.eqb_refl in Ha; discriminate).
-  all: try (subst; apply HC; solve [assumption | lia]).
-Qed.
-
-Lemma cancel_timer_CN : forall tk s, Inv s -> HP s -> tk <= gen s ->
-  tk <= gen (cancel_timer s tk) /\
-  forall i, (i < ntasks (cancel_timer s tk))%nat -> owner (tasks (cancel_timer s tk) i) = tk -> status (tasks (cancel_timer s tk) i) <> Pend false.
-Proof.
-  intros tk s HI H Hb. split. { unf; proj; brk; proj; assumption. }
-  intros i. unf; proj; brk; proj; intros Hi Oi Si; try discriminate.
-  all: try (pose proof (H i Hi Si) as HH; rewrite Oi in HH; congruence).
-Qed.
-
-Lemma cancel_makes_CN : forall tk s, Inv s -> HP s -> tk <= gen s -> CN tk (step s (Cancel tk)).
-Proof.
-  intros tk s HI H Hb. cbn [step]. destruct (has_timer s tk) eqn:Ht.
-  - apply cancel_timer_CN; assumption.
-  - split; [assumption|]. intros i Hi Oi _. destruct (i_task s HI i Hi) as (_ & HT). rewrite Oi in HT. congruence.
-Qed.
-
-Lemma forallb_app_inv : forall (f : event -> bool) a b, forallb f (a ++ b) = true -> forallb f a = true /\ forallb f b = true.
-Proof. intros. rewrite forallb_app in H. apply andb_prop in H. exact H. Qed.
-
-(* full statement: after cancel() - as long as the user does not re-arm the timer - nothing fires *)
-Lemma cancel_effective : forall evs1 evs2 e tk t0 tau,
-  nowrap (evs1 ++ Cancel tk :: evs2 ++ [e]) -> no_resched tk evs2 ->
-  In (OSent tk t0 tau) (log (run init evs1)) ->
-  forall o, In o (new_obs (run init (evs1 ++ Cancel tk :: evs2)) e) -> fires_for tk o = false.
-Proof.
-  intros evs1 evs2 e tk t0 tau Hnw Hnr2 Hsent o Ho.
-  unfold nowrap in Hnw. rewrite issues_app, issues_cons, issues_app, issues_cons in Hnw. cbn [is_issue] in Hnw. change (issues []) with 0 in Hnw.
-  pose proof (issues_nonneg evs1). pose proof (issues_nonneg evs2).
-  assert (Hnw1 : nowrap evs1) by (unfold nowrap; destruct (is_issue e); lia).
-  destruct (reach_HP evs1 Hnw1) as (HH & HI & Hg).
-  set (s1 := run init evs1) in *.
-  assert (Hb : tk <= gen s1). { apply (i_log s1 HI) in Hsent. exact Hsent. }
-  assert (Hok : okstep s1 (Cancel tk)) by (intros Hx; discriminate).
-  pose proof (cancel_makes_CN tk s1 HI HH Hb) as HC. pose proof (Inv_step s1 _ HI Hok) as HI2.
-  pose proof (gen_step s1 _ Hok) as Hg2. cbn [is_issue] in Hg2.
-  destruct (run_inv (CN tk) (noresched tk) (CN_step tk) evs2 (step s1 (Cancel tk)) HI2 HC) as (HC3 & HI3 & _).
-  { rewrite Hg2, Hg. destruct (is_issue e); lia. }
-  { exact Hnr2. }
-  assert (Es : run init (evs1 ++ Cancel tk :: evs2) = run (step s1 (Cancel tk)) evs2) by (rewrite run_app; reflexivity).
-  rewrite Es in *.
-  destruct (fires_for tk o) eqn:Hf; [exfalso|reflexivity].
-  destruct (fire_inv _ _ _ _ Ho Hf) as (i & _ & Hi & Oi & Si & _). destruct HC3 as (_ & HC3). exact (HC3 i Hi Oi Si).
-Qed.
-
-(* remove_request cancels the timer: afterwards no task of the request can wake up (until the user re-arms it) *)
-Lemma remove_cancels_timer : forall evs1 evs2 tk,
-  nowrap (evs1 ++ Remove tk :: evs2) -> no_resched tk evs2 -> memz tk (requests (run init evs1)) = true ->
-  forall i, (i < ntasks (run init (evs1 ++ Remove tk :: evs2)))%nat ->
-    owner (tasks (run init (evs1 ++ Remove tk :: evs2)) i) = tk -> status (tasks (run init (evs1 ++ Remove tk :: evs2)) i) <> Pend false.
-Proof.
-  intros evs1 evs2 tk Hnw Hnr2 Hm.
-  unfold nowrap in Hnw. rewrite issues_app, issues_cons in Hnw. cbn [is_issue] in Hnw.
-  pose proof (issues_nonneg evs1). pose proof (issues_nonneg evs2).
-  assert (Hnw1 : nowrap evs1) by (unfold nowrap; lia).
-  destruct (reach_HP evs1 Hnw1) as (HH & HI & Hg).
-  set (s1 := run init evs1) in *.
-  assert (Hb : tk <= gen s1). { apply (i_req s1 HI). apply memz_In. exact Hm. }
-  assert (Hok : okstep s1 (Remove tk)) by (intros Hx; discriminate).
-  assert (HC : CN tk (step s1 (Remove tk))).
-  { cbn [step]. rewrite Hm.
-    set (s' := emit (set_requests s1 (delz tk (requests s1))) (ORemoveOk tk)).
-    assert (HI' : Inv s'). { pose proof (Inv_step s1 (Remove tk) HI Hok) as X. cbn [step] in X. rewrite Hm in X. fold s' in X.
-      destruct (has_timer s' tk) eqn:Ht in X.
-      - (* Inv of s' itself: rebuild from s1 *) constructor; unfold s'; unf; proj.
-        + intros k Hk. apply In_delz in Hk. apply (i_req s1 HI). exact Hk.
-        + apply (i_task s1 HI).
-        + apply (i_timer s1 HI).
-        + intros o [<-|Ho]; [exact Hb|apply (i_log s1 HI); exact Ho].
-        + apply (i_handle s1 HI).
-      - exact X. }
-    assert (HH' : HP s') by exact HH.
-    destruct (has_timer s' tk) eqn:Ht.
-    - apply cancel_timer_CN; assumption.
-    - split; [exact Hb|]. intros i Hi Oi _. destruct (i_task s' HI' i Hi) as (_ & HT). rewrite Oi in HT. congruence. }
-  pose proof (Inv_step s1 _ HI Hok) as HI2. pose proof (gen_step s1 _ Hok) as Hg2. cbn [is_issue] in Hg2.
-  destruct (run_inv (CN tk) (noresched tk) (CN_step tk) evs2 (step s1 (Remove tk)) HI2 HC) as (HC3 & _).
-  { rewrite Hg2, Hg. lia. }
-  { exact Hnr2. }
-  assert (Es : run init (evs1 ++ Remove tk :: evs2) = run (step s1 (Remove tk)) evs2) by (rewrite run_app; reflexivity).
-  rewrite Es. exact (proj2 HC3).
-Qed.
-
-(* first re-arm (no earlier reschedule): only the new deadline can fire *)
-Definition SS (tk D : Z) (s : state) : Prop :=
-  tk <= gen s /\ forall i, (i < ntasks s)%nat -> owner (tasks s i) = tk -> status (tasks s i) = Pend false -> deadline (tasks s i) = D.
-
-Lemma SS_step : forall tk D s e, Inv s -> SS tk D s -> okstep s e -> noresched tk e = true -> SS tk D (step s e).
-Proof.
-  intros tk D s e HI (Hb & HC) Hok Ha.
-  assert (Hnew : is_issue e = true -> ticket_step TICKET_INITIAL (gen s) = gen s + 1).
-  { intros Hi. specialize (Hok Hi). rewrite ticket_step_spec. destruct (Z.ltb_spec MAXT (gen s + 1)); lia. }
-  pose proof (gen_step s e Hok) as Hg.
-  split. { destruct (is_issue e); lia. }
-  intros i. destruct e; cbn [is_issue noresched resched_on] in *; try specialize (Hnew eq_refl); unf; proj; brk; proj;
-    intros Hi Oi Si; try (apply HC; assumption || lia); try discriminate; try lia.
-  all: try (exfalso; unfold noresched, resched_on in Ha; subst; rewrite Z.eqb_refl in Ha; discriminate).
-  all: try (subst; apply HC; solve [assumption | lia]).
-Qed.
-
-Lemma resched_makes_SS : forall tk tau s, Inv s -> HP s -> tk <= gen s -> has_timer s tk = true ->
-  SS tk (now s + Z.max (match tau with Some t => t | None => tmo s tk end) 0) (step s (Resched tk tau)).
-Proof.
-  intros tk tau s HI H Hb Ht. pose proof (i_task s HI) as IT. pose proof (i_handle s HI) as IH.
-  split. { unf; proj; brk; proj; assumption. }
-  intros i. unf; proj; rewrite Ht; destruct tau; proj; brk; proj; intros Hi Oi Si; try discriminate; try congruence; try lia.
-  all: try (assert (Hi' : (i < ntasks s)%nat) by lia; pose proof (H i Hi' Si) as HH; rewrite Oi in HH; congruence).
-Qed.
-
-(* full statement: after ANY re-arm - until the next one - the timer only fires once the new deadline is reached *)
-Lemma superseded_never_fires : forall evs1 evs2 e tk tau t0 tau0,
-  nowrap (evs1 ++ Resched tk tau :: evs2 ++ [e]) -> no_resched tk evs2 ->
-  In (OSent tk t0 tau0) (log (run init evs1)) ->
-  forall o, In o (new_obs (run init (evs1 ++ Resched tk tau :: evs2)) e) -> fires_for tk o = true ->
-  now (run init evs1) + Z.max (match tau with Some t => t | None => tmo (run init evs1) tk end) 0
-    <= now (run init (evs1 ++ Resched tk tau :: evs2)).
-Proof.
-  intros evs1 evs2 e tk tau t0 tau0 Hnw Hnr2 Hsent o Ho Hf.
-  unfold nowrap in Hnw. rewrite issues_app, issues_cons, issues_app, issues_cons in Hnw. cbn [is_issue] in Hnw. change (issues []) with 0 in Hnw.
-  pose proof (issues_nonneg evs1). pose proof (issues_nonneg evs2).
-  assert (Hnw1 : nowrap evs1) by (unfold nowrap; destruct (is_issue e); lia).
-  destruct (reach_HP evs1 Hnw1) as (HH & HI & Hg).
-  set (s1 := run init evs1) in *.
-  assert (Hb : tk <= gen s1). { apply (i_log s1 HI) in Hsent. exact Hsent. }
-  assert (Hok : okstep s1 (Resched tk tau)) by (intros Hx; discriminate).
-  set (D := now s1 + Z.max (match tau with Some t => t | None => tmo s1 tk end) 0).
-  assert (HC : SS tk D (step s1 (Resched tk tau))).
-  { destruct (has_timer s1 tk) eqn:Ht.
-    - apply resched_makes_SS; assumption.
-    - assert (E : step s1 (Resched tk tau) = s1) by (cbn [step]; rewrite Ht; reflexivity). rewrite E.
-      split; [assumption|]. intros i Hi Oi _. destruct (i_task s1 HI i Hi) as (_ & HT). rewrite Oi in HT. congruence. }
-  pose proof (Inv_step s1 _ HI Hok) as HI2. pose proof (gen_step s1 _ Hok) as Hg2. cbn [is_issue] in Hg2.
-  destruct (run_inv (SS tk D) (noresched tk) (SS_step tk D) evs2 (step s1 (Resched tk tau)) HI2 HC) as (HC3 & HI3 & _).
-  { rewrite Hg2, Hg. destruct (is_issue e); lia. }
-  { exact Hnr2. }
-  assert (Es : run init (evs1 ++ Resched tk tau :: evs2) = run (step s1 (Resched tk tau)) evs2) by (rewrite run_app; reflexivity).
-  rewrite Es in *.
-  destruct (fire_inv _ _ _ _ Ho Hf) as (i & _ & Hi & Oi & Si & Hd & _). destruct HC3 as (_ & HC3).
-  rewrite (HC3 i Hi Oi Si) in Hd. exact Hd.
-Qed.
-
-(* ---------------------------------------------------------------- exactly at the deadline (lag-free loop) *)
-(* without loop lag no pending task is ever overdue: time only advances up to the next deadline *)
-Definition LF (s : state) : Prop :=
-  forall i, (i < ntasks s)%nat -> (exists c, status (tasks s i) = Pend c) -> now s <= deadline (tasks s i).
-Definition nolag (e : event) : bool := negb (is_lag e).
-
-Lemma quiet_until_spec : forall s t n, quiet_until s t n = true -> forall i, (i < n)%nat ->
-  forall c, status (tasks s i) = Pend c -> t <= deadline (tasks s i).
-Proof.
-  induction n; intros H i Hi c Hs; [lia|]. cbn [quiet_until] in H. apply andb_prop in H. destruct H as (H1 & H2).
-  destruct (Nat.eq_dec i n) as [->|Hne].
-  - rewrite Hs in H1. apply andb_prop in H1. destruct H1 as (_ & H1). apply Z.leb_le in H1. exact H1.
-  - eapply IHn; [exact H2| lia | exact Hs].
-Qed.
-
-Lemma LF_step : forall s e, Inv s -> LF s -> okstep s e -> nolag e = true -> LF (step s e).
-Proof.
-  intros s e HI H Hok Ha.
-  intros i. destruct e; cbn [nolag is_lag negb] in Ha; try discriminate; unf; proj; brk; proj;
-    intros Hi (c & Si); try (apply H; [lia|eexists; eassumption]); try lia; try discriminate.
-  all: try (apply H; [lia|eexists; eassumption]).
-  all: try (match goal with E : quiet_until _ _ _ = true |- _ => eapply (quiet_until_spec _ _ _ E); [|eassumption]; lia end).
-  apply andb_prop in E. destruct E as (_ & E). eapply (quiet_until_spec _ _ _ E); eassumption.
-Qed.
-
-
-(* tasks are never removed or re-owned; a step creates at most one task *)
-Lemma step_tasks : forall s e i, (i < ntasks s)%nat ->
-  (i < ntasks (step s e))%nat /\ owner (tasks (step s e) i) = owner (tasks s i) /\ deadline (tasks (step s e) i) = deadline (tasks s i).
-Proof.
-  intros s e i Hi. destruct e; unf; proj; brk; proj; repeat split; try lia; try reflexivity; subst; try reflexivity; try lia.
-Qed.
-
-Lemma step_new_task : forall s e i, okstep s e -> (ntasks s <= i)%nat -> (i < ntasks (step s e))%nat ->
-  i = ntasks s /\
-  ((exists tau, tau <> 0 /\ delta s e = [OSent (gen s + 1) (now s) tau] /\ owner (tasks (step s e) i) = gen s + 1 /\
-                deadline (tasks (step s e) i) = now s + Z.max tau 0) \/
-   (exists tk tau, e = Resched tk tau /\ owner (tasks (step s e) i) = tk)).
-Proof.
-  intros s e i Hok Hge Hlt.
-  assert (Hnew : is_issue e = true -> ticket_step TICKET_INITIAL (gen s) = gen s + 1).
-  { intros Hi. specialize (Hok Hi). rewrite ticket_step_spec. destruct (Z.ltb_spec MAXT (gen s + 1)); lia. }
-  revert Hlt. destruct e; cbn [is_issue] in *; try specialize (Hnew eq_refl); unfold delta; cbn zeta; unf; proj; brk; proj; intros Hlt; try lia;
-    (split; [lia|]); try (right; eexists _, _; split; [reflexivity|]; brk; proj; try reflexivity; lia).
-  all: try (left; eexists; rewrite ?Hnew; brk; proj; repeat split; try reflexivity; try lia; try congruence).
-Qed.
-
-Lemma delta_sent : forall s e tk t0 tau, okstep s e -> In (OSent tk t0 tau) (delta s e) -> tau <> 0 ->
-  tk = gen s + 1 /\ t0 = now s /\ ntasks (step s e) = S (ntasks s).
-Proof.
-  intros s e tk t0 tau Hok Hin Ht.
-  assert (Hnew : is_issue e = true -> ticket_step TICKET_INITIAL (gen s) = gen s + 1).
-  { intros Hi. specialize (Hok Hi). rewrite ticket_step_spec. destruct (Z.ltb_spec MAXT (gen s + 1)); lia. }
-  destruct e; cbn [is_issue] in *; try specialize (Hnew eq_refl); unfold delta in Hin; cbn zeta in Hin;
-    repeat match type of Hin with context [if ?c then _ else _] => let E := fresh "E" in destruct c eqn:E
-                               | context [match ?c with _ => _ end] => let E := fresh "E" in destruct c eqn:E end;
-    cbn [In] in Hin; try tauto; destruct Hin as [Hin|[]]; try discriminate; inv Hin; try congruence;
-    (split; [assumption|split; [reflexivity|]]); unf; proj; rewrite ?E; proj; try reflexivity.
-Qed.
-
-(* per request whose timer the user never touches: where its (unique) task stands *)
-Definition untouched_ev (tk : Z) (e : event) : bool := andb (negb (timer_op_on tk e)) (negb (is_lag e)).
-
-Record J (tk : Z) (s : state) : Prop := mkJ {
-  j_pend : forall i, (i < ntasks s)%nat -> owner (tasks s i) = tk -> status (tasks s i) = Pend false -> memz tk (requests s) = true;
-  j_canc : forall i, (i < ntasks s)%nat -> owner (tasks s i) = tk -> status (tasks s i) = Pend true -> In (ORemoveOk tk) (log s);
-  j_fin : forall i cb, (i < ntasks s)%nat -> owner (tasks s i) = tk -> status (tasks s i) = Fin cb ->
-          In (ORemoveOk tk) (log s) \/ In (ORemoved tk (deadline (tasks s i))) (log s);
-  j_ex : forall t0 tau, In (OSent tk t0 tau) (log s) -> tau <> 0 -> exists i, (i < ntasks s)%nat /\ owner (tasks s i) = tk;
-  j_dl : forall i t0 tau, (i < ntasks s)%nat -> owner (tasks s i) = tk -> In (OSent tk t0 tau) (log s) -> tau <> 0 ->
-          deadline (tasks s i) = t0 + Z.max tau 0;
-  j_rm : forall t, In (ORemoved tk t) (log s) -> exists i, (i < ntasks s)%nat /\ owner (tasks s i) = tk /\ t = deadline (tasks s i)
-}.
-
-Lemma J_init : forall tk, J tk init.
-Proof. intros. constructor; cbn; intros; try lia; tauto. Qed.
-
-Lemma J_step : forall tk s e, Inv s -> HP s -> LF s -> NR tk s -> J tk s -> okstep s e -> untouched_ev tk e = true -> J tk (step s e).
-Proof.
-  intros tk s e HI HH HL HN [J1 J2 J3 J4 J5 J6] Hok Ha.
-  assert (Hnew : is_issue e = true -> ticket_step TICKET_INITIAL (gen s) = gen s + 1).
-  { intros Hi. specialize (Hok Hi). rewrite ticket_step_spec. destruct (Z.ltb_spec MAXT (gen s + 1)); lia. }
-  pose proof (i_task s HI) as IT. pose proof (i_handle s HI) as IH. pose proof (i_log s HI) as IL.
-  unfold untouched_ev in Ha. apply andb_prop in Ha. destruct Ha as (Ha1 & Ha2).
-  constructor.
-  - (* pending => registered *)
-    intros i. destruct e; cbn [is_issue timer_op_on is_lag negb] in *; try discriminate; try specialize (Hnew eq_refl); unf; proj; brk; proj;
-      intros Hi Oi Si; try discriminate; try (apply (J1 i); solve [assumption | lia]).
-    all: try (subst; assumption).
-    all: try (cbn [memz existsb]; apply orb_true_iff; first [left; apply Z.eqb_eq; congruence | right; apply (J1 i); solve [assumption|lia]]).
-    all: try (exfalso; match goal with H : context [owner (tasks ?s0 ?k)] |- _ => destruct (IT k ltac:(lia)); lia end).
-    all: try (match goal with |- memz ?tk0 (delz ?k _) = true => destruct (Z.eq_dec tk0 k) as [Eq|Ne];
-                [exfalso | rewrite memz_delz_other by assumption; apply (J1 i); solve [assumption|lia]] end).
-    all: try (pose proof (HH i Hi Si) as X; rewrite Oi in X; subst; congruence).
-    all: try (destruct (IT i Hi) as (_ & X); rewrite Oi in X; subst; congruence).
-    all: try (match goal with n : ?a <> ?k |- False => apply n; apply (nr_uniq tk s HN); solve [assumption | lia | congruence] end).
-  - (* cancelled => removed by the user *)
-    intros i. destruct e; cbn [is_issue timer_op_on is_lag negb] in *; try discriminate; try specialize (Hnew eq_refl); unf; proj; brk; proj;
-      intros Hi Oi Si; try discriminate;
-      try (first [apply (J2 i); solve [assumption | lia] | right; apply (J2 i); solve [assumption | lia]]).
-    all: try (exfalso; match goal with H : context [owner (tasks ?s0 ?k)] |- _ => destruct (IT k ltac:(lia)); lia end).
-    all: try (match goal with E1 : handle ?s0 ?k = Some ?n |- _ => destruct (IH k n E1) as (_ & X) end; subst;
-              first [left; congruence | exfalso; rewrite Z.eqb_refl in Ha1; discriminate | exfalso; rewrite X, Z.eqb_refl in Ha1; discriminate]).
-  - (* finished => removed by the user or reported removed at the deadline *)
-    intros i cb. destruct e; cbn [is_issue timer_op_on is_lag negb] in *; try discriminate; try specialize (Hnew eq_refl); unf; proj; brk; proj;
-      intros Hi Oi Si; try discriminate;
-      try (destruct (J3 i cb ltac:(lia) Oi Si) as [A|B]; [left|right]; first [assumption | right; assumption]).
-    all: try (exfalso; match goal with H : context [owner (tasks ?s0 ?k)] |- _ => destruct (IT k ltac:(lia)); lia end).
-    all: try (left; apply (J2 i0); solve [assumption | lia | congruence]).
-    all: try (right; left; f_equal; [congruence|];
-              assert (now s <= deadline (tasks s i0)) by (apply HL; [assumption|eexists; eassumption]); lia).
-    all: try (exfalso; match goal with E1 : memz _ _ = false |- _ => rewrite Oi in E1; rewrite (J1 i0) in E1; [discriminate|assumption|reflexivity|congruence] end).
-    all: try (match goal with E : status (tasks ?s0 ?k) = Fin ?c |- _ => destruct (J3 k c ltac:(lia) ltac:(congruence) E) as [A|B]; [left|right]; first [assumption | right; assumption] end).
-    exfalso. pose proof (J1 i0 H Oi E) as X. rewrite Oi in E1. congruence.
-  - (* a task exists for every request sent with a timeout *)
-    intros t0 tau Hin Ht. rewrite step_log, new_obs_delta in Hin. apply in_app_or in Hin. destruct Hin as [Hin|Hin].
-    + destruct (delta_sent _ _ _ _ _ Hok Hin Ht) as (-> & -> & Hn).
-      destruct (step_new_task s e (ntasks s) Hok ltac:(lia) ltac:(lia)) as (_ & [(tau' & _ & _ & Ho & _)|(tk' & tau' & -> & _)]).
-      * exists (ntasks s). split; [lia|exact Ho].
-      * cbn [delta] in Hin. destruct Hin.
-    + destruct (J4 t0 tau Hin Ht) as (i & Hi & Oi). destruct (step_tasks s e i Hi) as (A & B & _). exists i. split; [exact A|congruence].
-  - (* its deadline is registration time + timeout *)
-    intros i t0 tau Hi Oi Hin Ht. rewrite step_log, new_obs_delta in Hin. apply in_app_or in Hin.
-    destruct (lt_dec i (ntasks s)) as [Hlt|Hge].
-    + destruct (step_tasks s e i Hlt) as (_ & B & C). rewrite B in Oi. rewrite C. destruct Hin as [Hin|Hin].
-      * destruct (delta_sent _ _ _ _ _ Hok Hin Ht) as (-> & _). destruct (IT i Hlt). lia.
-      * eapply J5; eassumption.
-    + destruct (step_new_task s e i Hok ltac:(lia) Hi) as (-> & [(tau' & Ht' & Hd & Ho & Hdl)|(tk' & tau' & -> & Ho)]).
-      * rewrite Ho in Oi. subst tk. destruct Hin as [Hin|Hin].
-        -- rewrite Hd in Hin. destruct Hin as [Hin|[]]. inv Hin. exact Hdl.
-        -- apply IL in Hin. cbn in Hin. lia.
-      * exfalso. rewrite Ho in Oi. subst tk'. cbn [timer_op_on] in Ha1. rewrite Z.eqb_refl in Ha1. discriminate.
-  - (* every reported removal happened at the task's deadline *)
-    intros t Hin. rewrite step_log in Hin. apply in_app_or in Hin. destruct Hin as [Hin|Hin].
-    + destruct (fire_inv s e tk (ORemoved tk t) Hin) as (i0 & -> & Hi & Oi & Si & Hd & Ho & _); [cbn; apply Z.eqb_refl|].
-      inv Ho. destruct (step_tasks s (Step i0) i0 Hi) as (A & B & C). exists i0. split; [exact A|]. split; [congruence|].
-      rewrite C. assert (now s <= deadline (tasks s i0)) by (apply HL; [assumption|eexists; eassumption]). lia.
-    + destruct (J6 t Hin) as (i & Hi & Oi & Et). destruct (step_tasks s e i Hi) as (A & B & C). exists i. split; [exact A|]. split; congruence.
-Qed.
-
-Lemma untouched_noresched : forall tk e, untouched_ev tk e = true -> noresched tk e = true /\ nolag e = true.
-Proof.
-  intros tk e H. unfold untouched_ev in H. apply andb_prop in H. destruct H as (H1 & H2). split; [|exact H2].
-  unfold noresched. destruct e; cbn in *; try reflexivity. exact H1.
-Qed.
-
-Definition PX (tk : Z) (s : state) : Prop := NR tk s /\ HP s /\ LF s /\ J tk s.
-
-Lemma PX_step : forall tk s e, Inv s -> PX tk s -> okstep s e -> untouched_ev tk e = true -> PX tk (step s e).
-Proof.
-  intros tk s e HI (A & B & C & D) Hok Ha. destruct (untouched_noresched tk e Ha) as (H1 & H2).
-  split; [apply NR_step; assumption|]. split; [apply HP_step; auto|]. split; [apply LF_step; assumption|].
-  apply J_step; assumption.
-Qed.
-
-(* Exactly at the deadline.  In a history without loop lag and without user operations on the request's
-   timer: every reported removal of tk happened at registration time + timeout, and as soon as the clock
-   has passed that instant the removal HAS been reported - unless the user removed the request. *)
-Lemma timeout_exact : forall evs tk t0 tau, nowrap evs -> forallb (untouched_ev tk) evs = true ->
-  In (OSent tk t0 tau) (log (run init evs)) -> tau <> 0 ->
-  (forall t, In (ORemoved tk t) (log (run init evs)) -> t = t0 + Z.max tau 0) /\
-  (t0 + Z.max tau 0 < now (run init evs) ->
-     In (ORemoved tk (t0 + Z.max tau 0)) (log (run init evs)) \/ In (ORemoveOk tk) (log (run init evs))).
-Proof.
-  intros evs tk t0 tau Hnw Hu Hsent Ht.
-  destruct (run_inv (PX tk) (untouched_ev tk) (PX_step tk) evs init Inv_init) as ((HN & HH & HL & HJ) & HI & _); try assumption.
-  { split; [apply NR_init|]. split; [intros i Hi; cbn in Hi; lia|]. split; [intros i Hi; cbn in Hi; lia|apply J_init]. }
-  set (s := run init evs) in *. split.
-  - intros t Hin. destruct (j_rm tk s HJ t Hin) as (i & Hi & Oi & ->). eapply (j_dl tk s HJ); eassumption.
-  - intros Hlate. destruct (j_ex tk s HJ t0 tau Hsent Ht) as (i & Hi & Oi).
-    pose proof (j_dl tk s HJ i t0 tau Hi Oi Hsent Ht) as Hd.
-    destruct (status (tasks s i)) as [c|cb] eqn:Si.
-    + exfalso. assert (now s <= deadline (tasks s i)) by (apply HL; [assumption|eexists; eassumption]). lia.
-    + destruct (j_fin tk s HJ i cb Hi Oi Si) as [A|B]; [right; exact A|left; rewrite <- Hd; exact B].
-Qed.
-
-Example timeout_exact_nonvacuous :
-  let evs := [Search 5; Search 0; Step 0%nat; Advance 5; Step 0%nat; DoneCb 0%nat; Advance 3] in
-  nowrap evs /\ forallb (untouched_ev 2) evs = true /\ In (OSent 2 0 5) (log (run init evs)) /\
-  now (run init evs) = 8 /\ In (ORemoved 2 5) (log (run init evs)).
-Proof. unfold nowrap, MAXT. vm_compute. repeat split; try discriminate; tauto. Qed.
+(* C18 proofs: split into parts that build in parallel; this file re-exports them *)
+From Slsk Require Export C18.PBase C18.PInv C18.PTickets C18.PHandle C18.PNR C18.PCancel C18.PLag C18.PExact.
